@@ -209,13 +209,13 @@ func zeroTerm(sort string) string {
 	case "Bool":
 		return "false"
 	case "Str":
-		return "str.empty"
+		return "gs.empty"
 	case "Flt":
 		return "flt.zero"
 	}
 	if strings.HasPrefix(sort, "(Array Int ") {
-		inner := sort[len("(Array Int ") : len(sort)-1]
-		return fmt.Sprintf("((as const %s) %s)", sort, zeroTerm(inner))
+		// a declared all-zero array (cvc5 cannot connect different constant arrays by stores)
+		return "zero." + sanitize(sort)
 	}
 	unsup("zero of sort %s", sort)
 	return ""
